@@ -221,8 +221,8 @@ theorem C05_speed_change_immediate (c : Clock ℝ) (info : Info ℝ) (s : ClockS
 theorem C05_speed_interpolation (a b : ClockSpeed ℝ) (t : ℝ) :
     ClockSpeed.lerp a b t = ClockSpeed.lerpInTargetUnit a b t ∧ ClockSpeed.lerp a b 1 = b := by
   constructor
-  · simp [ClockSpeed.lerp]
-  · cases b <;> simp [ClockSpeed.lerp, ClockSpeed.lerpInTargetUnit, lerp64]
+  · cases b <;> simp [ClockSpeed.lerp, ClockSpeed.lerpInTargetUnit]
+  · cases b <;> simp [ClockSpeed.lerp, lerp64]
 
 /-- **a speed tween never manufactures a NaN speed** (every number type, in particular the floats the twin
     runs — repaired: a clock at 0 ticks per second retargeted with a tween to a `SecondsPerTick` speed used to
@@ -235,12 +235,22 @@ theorem C05_speed_interpolation_never_nan {α : Type} [Add α] [Sub α] [Mul α]
     KOps.isFinite (ClockSpeed.lerp a b t).raw = true
       ∨ KOps.isNaN (ClockSpeed.lerp a b t).raw = false
       ∨ ClockSpeed.lerp a b t = a := by
-  unfold ClockSpeed.lerp
-  by_cases h1 : KOps.isFinite (ClockSpeed.lerpInTargetUnit a b t).raw = true
-  · left; simp [h1]
-  · by_cases h2 : KOps.isNaN (ClockSpeed.lerpInStartUnit a b t).raw = true
-    · right; right; simp [h1, h2]
-    · right; left; simp [h1, h2]
+  have hstart : KOps.isNaN (ClockSpeed.lerpInUnitOfStart a b t).raw = false
+      ∨ ClockSpeed.lerpInUnitOfStart a b t = a := by
+    cases a <;> (
+      unfold ClockSpeed.lerpInUnitOfStart
+      dsimp only
+      split
+      · right; rfl
+      · rename_i h; left; simpa [ClockSpeed.raw] using h)
+  cases b <;> (
+    unfold ClockSpeed.lerp
+    dsimp only
+    split
+    · rename_i h; left; simpa [ClockSpeed.raw] using h
+    · rcases hstart with h | h
+      · right; left; exact h
+      · right; right; exact h)
 
 /-- **a speed tween scheduled on a clock time waits for it**: while the `Info` the clock is
     updated with does not say `Now` for that time, the tween has not begun (its state, with tween
